@@ -117,6 +117,8 @@ def run(ctx):
             k += ":unpaired-client-admitted"
         elif ln.get("ev") in ("acceptRet", "dialRet"):
             k += ":" + str(ln.get("sid"))
+        elif ln.get("ev") == "read" and not ln.get("ok"):
+            k += ":bytes-of-another-stream"
         return k
 
     for x in lines:
